@@ -1,18 +1,44 @@
 """C15 - body builder and parser are transactional across push/fail/reset/get histories.
 
-Histories of operations on one real MarshalledMessageBody (typed pushes through catalogue types, push_param2..5,
-push_params, push_variant, push_old_param(s), reset) with failing elements placed at every inner position
-(NUL string, invalid path/signature, taken descriptor), followed by a parser walk (get, get2..5, get_param with
-matching and mismatching types). After EVERY operation the harness prints the body's signature, bytes and
-descriptor count (parser: next signature and signatures left); the extracted model (coq/Wire/Body.v) runs the
-same history.  Independently of the model the property is evaluated on the implementation's output:
-a failing operation leaves the printed state unchanged, reset leaves it empty, the state after the history is
-the specification's rendering of the committed values, a failing get leaves the parser where it was.
+Histories of operations on one real MarshalledMessageBody and one real MessageBodyParser; the extracted model
+(coq/Wire/Body.v) runs the same lines.  Four generators:
+
+  generic   typed pushes through catalogue types, push_param2..5 (one type: BPUSHN, different types: BPUSHM), push_params,
+            push_variant, push_old_param(s), reset, failing element at a random inner position; near-miss signatures; a
+            parser walk with matching, mismatching, over-long and mixed-type (PGETM) requests, the mismatching slot of a
+            multi-get at the first, a middle and the last position, every failure followed by a retry / get_param.
+  decode    a body of good values, then a parser over from_parts(<the same bytes with ONE fault inside one value>, same
+            signature): bad bool, bad UTF-8, NUL inside / missing terminator, non-zero padding, length too large,
+            replaced variant signature, truncation - so that a get fails while DECODING, after bytes were consumed; the
+            failing value sits at the first, a middle or the last slot of get2..5; or (no fault) a variant is requested
+            as Var<T> with another T.  After every failure: retry, get_param (the dynamic decoder at the same cursor),
+            the typed get of the right type.
+  long      the signature is grown to 253..258 and beyond 255 characters, then failing pushes of every kind, small
+            successful pushes that step across 254/255/256, reset, more operations.
+  badtree   push_old_param(s) with Param trees no typed value can have: a struct without fields at any depth/position,
+            a variant whose signature is not its value's type, arrays/dicts whose declared element types differ from the
+            elements.  Expected: refused, no trace, no panic.
+
+Observables compared with the model after EVERY operation (error variants collapsed to "failed"):
+  builder ops: result, signature, bytes, number of attached descriptors;
+  parser ops:  result, decoded value tokens (descriptor values masked, maps canonical), get_next_sig(), sigs_left(),
+               and the two private cursors (buf_idx, sig_idx) read off the parser's derived Debug output.
+Independently of the model, on the implementation's own output: a failing push leaves (signature, bytes, descriptor
+count) as they were; reset leaves them empty; no operation panics; a failing get / getN / get_param leaves (next signature,
+signatures left, buf_idx, sig_idx) as they were; a successful one moves sig_idx by exactly the signature characters of the
+types it returned and sigs_left by their number.  When model and implementation differ the property is evaluated on
+the implementation's output with the extracted SPECIFICATION (spec_enc through the driver's SE op): the bytes a successful
+push appended / a successful get stepped over must be the specification's encoding of the values pushed / returned.
 """
+import concurrent.futures as cf
+import glob
 import os
 
 import vlib
 import wiregen as wg
+
+PARSER_OPS = ("PNEW", "PNEWX", "PGET", "PGETN", "PGETM", "PGETP")
+STATE_KEYS = ("sig", "buf", "nfds", "next", "left")
 
 
 def parse_state(line):
@@ -21,7 +47,7 @@ def parse_state(line):
     kv = {}
     rest = []
     for p in parts[1:]:
-        if "=" in p and p.split("=", 1)[0] in ("sig", "buf", "nfds", "next", "left"):
+        if "=" in p and p.split("=", 1)[0] in STATE_KEYS:
             k, v = p.split("=", 1)
             kv[k] = v
         else:
@@ -29,101 +55,785 @@ def parse_state(line):
     return res, kv, " ".join(rest)
 
 
-def gen_history(r, cat, length):
-    """returns list of op lines (same text for harness and driver)"""
-    bo = r.choice(["le", "be"])
-    ops = ["BNEW " + bo]
-    pushed_types = []              # extended types of successfully pushable items, in order (for the parser walk)
-    for _ in range(length):
-        k = r.random()
-        ty = r.choice(cat)
-        t = wg.parse_ext(ty)
-        bad = r.random() < 0.3 and wg.count_leaves(t, "sogh") > 0
-        if k < 0.35:
-            toks, isbad = wg.gen_value(r, t, bad=bad, dict_sizes=(0, 1))
-            ops.append("BPUSH %s %s" % (ty, " ".join(toks)))
-            pushed_types.append((ty, isbad, 1, False))
-        elif k < 0.55:
-            n = r.choice([2, 2, 3, 4, 5, 6])
-            vals = []
-            anybad = False
-            badpos = r.randrange(n) if bad else -1
-            for i in range(n):
-                toks, isbad = wg.gen_value(r, t, bad=(i == badpos), dict_sizes=(0, 1))
-                anybad = anybad or isbad
-                vals.append(" ".join(toks))
-            ops.append("BPUSHN %s %d %s" % (ty, n, " ".join(vals)))
-            pushed_types.append((ty, anybad, n, False))
-        elif k < 0.7:
-            toks, isbad = wg.gen_value(r, t, bad=bad, dict_sizes=(0, 1))
-            ops.append("BPUSHV %s %s" % (ty, " ".join(toks)))
-            pushed_types.append(("v[%s]" % ty if ("v[%s]" % ty) in cat else None, isbad, 1, True))
-        elif k < 0.85:
-            toks, isbad = wg.gen_value(r, t, bad=bad, dict_sizes=(0, 1))
-            ops.append("BOLD " + " ".join(toks))
-            pushed_types.append((ty, isbad, 1, False))
-        elif k < 0.93:
-            n = r.choice([1, 2, 3])
-            vals = []
-            anybad = False
-            badpos = r.randrange(n) if bad else -1
-            for i in range(n):
-                toks, isbad = wg.gen_value(r, t, bad=(i == badpos), dict_sizes=(0, 1))
-                anybad = anybad or isbad
-                vals.append(" ".join(toks))
-            ops.append("BOLDS %d %s" % (n, " ".join(vals)))
-            pushed_types.append((ty, anybad, n, False))
+# ----------------------------------------------------------------------------- small helpers on types and token trees
+def esig(ty):
+    return wg.erased(wg.parse_ext(ty))
+
+
+def tree_sig(t):
+    """D-Bus signature of a parsed token tree (declared element types of arrays and maps)"""
+    k = t[0]
+    if k == "b":
+        return t[1]
+    if k == "a":
+        return "a" + t[1]
+    if k == "r":
+        return "(" + "".join(tree_sig(x) for x in t[1]) + ")"
+    if k == "e":
+        return "a{" + t[1] + t[2] + "}"
+    return "v"
+
+
+def consistent(t):
+    """does the token tree denote a value of its own type: no struct without fields, variant signatures = type of the
+    content, declared element / key / value types = types of the elements"""
+    k = t[0]
+    if k == "b":
+        return True
+    if k == "a":
+        return all(tree_sig(x) == t[1] and consistent(x) for x in t[2])
+    if k == "r":
+        return len(t[1]) > 0 and all(consistent(x) for x in t[1])
+    if k == "e":
+        return all(tree_sig(a) == t[1] and tree_sig(b) == t[2] and consistent(b) for a, b in t[3])
+    return tree_sig(t[2]) == t[1] and consistent(t[2])
+
+
+def split_sig(s):
+    """a sequence of complete types -> list of single types (None if malformed)"""
+    out = []
+    i = 0
+    n = len(s)
+
+    def one(i):
+        if i >= n:
+            raise ValueError
+        c = s[i]
+        if c == "a":
+            return one(i + 1)
+        if c == "(":
+            i += 1
+            while i < n and s[i] != ")":
+                i = one(i)
+            if i >= n:
+                raise ValueError
+            return i + 1
+        if c == "{":
+            i = one(i + 1)
+            i = one(i)
+            if i >= n or s[i] != "}":
+                raise ValueError
+            return i + 1
+        return i + 1
+    try:
+        while i < n:
+            j = one(i)
+            out.append(s[i:j])
+            i = j
+    except (ValueError, IndexError):
+        return None
+    return out
+
+
+class Enc:
+    """Plain encoder of value tokens; marks = (kind, position, length) of the places where a fault makes a decoder fail:
+    pad, bool, slen, sbody, term, glen, alen, vsig.  Used ONLY to aim faults: whatever bytes come out, implementation and
+    model are run on the same bytes, and the histogram says how often these bytes were the real body's."""
+
+    def __init__(self, be):
+        self.order = "big" if be else "little"
+        self.buf = bytearray()
+        self.marks = []
+        self.nfds = 0
+
+    def pad(self, a):
+        while len(self.buf) % a:
+            self.marks.append(("pad", len(self.buf), 1))
+            self.buf.append(0)
+
+    def num(self, v, width):
+        self.pad(width)
+        self.buf += int(v).to_bytes(width, self.order)
+
+    def text(self, data, lenwidth):
+        if lenwidth == 4:
+            self.pad(4)
+            self.marks.append(("slen", len(self.buf), 4))
+            self.num(len(data), 4)
         else:
-            ops.append("BRESET")
-            pushed_types = []
-    # near misses: a value of a slightly different type (pushed through the dynamic API, which can express any
-    # struct), asked for as the catalogue type: must be WrongSignature, never a misread
-    near = []
-    for _ in range(r.choice([0, 1, 2])):
-        ty = r.choice(cat)
-        t = wg.parse_ext(ty)
-        cands = [nm for nm in wg.near_misses(t) if wg.erased(nm) != wg.erased(t) and _struct_arity_ok(nm) and not _has_variant(nm)]
-        if not cands:
-            continue
-        nm = r.choice(cands)
-        toks, isbad = wg.gen_value(r, nm, bad=False, dict_sizes=(0, 1))
-        ops.append("BOLD " + " ".join(toks))
-        near.append(ty)
-    # parser walk over what is committed: mismatching request first, then the right one (or get_param / getN)
-    ops.append("PNEW")
-    for (ty, isbad, n, _) in pushed_types:
-        if isbad:
-            continue
-        left = n
-        if ty is None:                     # a variant whose typed counterpart is not in the catalogue: dynamic get only
-            ops.append("PGET y")
-            ops.append("PGETP")
-            continue
-        while left > 0:
-            if r.random() < 0.5:
-                other = r.choice(cat)
-                if wg.erased(wg.parse_ext(other)) != wg.erased(wg.parse_ext(ty)):
-                    ops.append("PGET " + other)
-            if left >= 2 and r.random() < 0.4:
-                k = min(left, r.choice([2, 3, 4, 5]))
-                if r.random() < 0.3:
-                    ops.append("PGETN %s %d" % (ty, min(5, left + 1)))     # asks for too many of this type: must fail as a whole
-                    # (it may succeed if the following items happen to have the same type; the model decides)
-                ops.append("PGETN %s %d" % (ty, k))
-                left -= k
-            elif r.random() < 0.3:
-                ops.append("PGETP")
-                left -= 1
+            self.marks.append(("glen", len(self.buf), 1))
+            self.buf.append(len(data) % 256)
+        if data:
+            self.marks.append(("sbody", len(self.buf), len(data)))
+        self.buf += data
+        self.marks.append(("term", len(self.buf), 1))
+        self.buf.append(0)
+
+    def enc(self, t):
+        k = t[0]
+        if k == "b":
+            tag, p = t[1], t[2]
+            if tag == "y":
+                self.buf.append(int(p))
+            elif tag == "b":
+                self.pad(4)
+                self.marks.append(("bool", len(self.buf), 4))
+                self.num(p, 4)
+            elif tag in "nq":
+                self.num(p, 2)
+            elif tag in "iu":
+                self.num(p, 4)
+            elif tag == "h":
+                self.num(self.nfds, 4)
+                self.nfds += 1
+            elif tag in "xtd":
+                self.num(p, 8)
+            elif tag in "so":
+                self.text(bytes.fromhex(p) if p != "-" else b"", 4)
+            elif tag == "g":
+                self.text(bytes.fromhex(p) if p != "-" else b"", 1)
             else:
-                ops.append("PGET " + ty)
-                left -= 1
-    for ty in near:
-        ops.append("PGET " + ty)          # the near miss: wrong signature expected
-        ops.append("PGETN %s 2" % ty)
-        ops.append("PGETP")               # the dynamic API reads it
-    ops.append("PGET y")
-    ops.append("PGETP")
-    return ops
+                raise ValueError(tag)
+        elif k in ("a", "e"):
+            self.pad(4)
+            lp = len(self.buf)
+            self.marks.append(("alen", lp, 4))
+            self.buf += bytes(4)
+            self.pad(8 if k == "e" else wg.type_align(wg.parse_ext(t[1])))
+            start = len(self.buf)
+            if k == "a":
+                for x in t[2]:
+                    self.enc(x)
+            else:
+                for a, b in t[3]:
+                    self.pad(8)
+                    self.enc(a)
+                    self.enc(b)
+            self.buf[lp:lp + 4] = (len(self.buf) - start).to_bytes(4, self.order)
+        elif k == "r":
+            self.pad(8)
+            for x in t[1]:
+                self.enc(x)
+        elif k == "v":
+            sg = t[1].encode()
+            self.marks.append(("vsig", len(self.buf), len(sg) + 2))
+            self.buf.append(len(sg))
+            self.buf += sg
+            self.buf.append(0)
+            self.enc(t[2])
+        else:
+            raise ValueError(t)
+
+
+def with_cursor(ops):
+    out = []
+    for o in ops:
+        out.append(o)
+        if o.split(" ", 1)[0] in PARSER_OPS:
+            out.append("PCUR")
+    return out
+
+
+# ----------------------------------------------------------------------------- generators
+class Gen:
+    def __init__(self, r, cat, mix):
+        self.r = r
+        self.cat = cat
+        self.catset = set(cat)
+        self.mix = mix
+        self.mixset = set(mix)
+        self.by_esig = {}
+        for m in mix:
+            self.by_esig.setdefault(esig(m), []).append(m)
+        self.failable = [t for t in cat if wg.count_leaves(wg.parse_ext(t), "sogh") > 0]
+        self.mix_failable = [t for t in mix if wg.count_leaves(wg.parse_ext(t), "sogh") > 0]
+        # types whose decoding can fail after bytes were consumed
+        self.rich = [t for t in mix if wg.count_leaves(wg.parse_ext(t), "sogb") > 0 or not t[0].isalpha() or t[0] in "av"]
+
+    # ---- values
+    def value(self, ty, bad=False):
+        toks, isbad = wg.gen_value(self.r, wg.parse_ext(ty), bad=bad, dict_sizes=(0, 1))
+        return " ".join(toks), isbad
+
+    def push_group(self, types, badpos=-1):
+        """one builder op that pushes these types in order (badpos: index of the failing value); returns (op, failing)"""
+        r = self.r
+        vals = []
+        anybad = False
+        for i, ty in enumerate(types):
+            v, isbad = self.value(ty, bad=(i == badpos))
+            anybad = anybad or isbad
+            vals.append(v)
+        n = len(types)
+        same = all(t == types[0] for t in types)
+        choices = []
+        if all(t in self.mixset for t in types) and n <= 5:
+            choices += ["M", "M"]
+        if same and types[0] in self.catset and n >= 2:
+            choices += ["N"]
+        if n == 1 and types[0] in self.catset:
+            choices += ["P", "P"]
+        choices += ["O"]
+        c = r.choice(choices)
+        if c == "M":
+            return "BPUSHM %d %s" % (n, " ".join("%s %s" % (t, v) for t, v in zip(types, vals))), anybad
+        if c == "N":
+            return "BPUSHN %s %d %s" % (types[0], n, " ".join(vals)), anybad
+        if c == "P":
+            return "BPUSH %s %s" % (types[0], vals[0]), anybad
+        if n == 1:
+            return "BOLD " + vals[0], anybad
+        return "BOLDS %d %s" % (n, " ".join(vals)), anybad
+
+    def single_get(self, ty):
+        r = self.r
+        opts = []
+        if ty in self.mixset:
+            opts.append("PGETM 1 " + ty)
+        if ty in self.catset:
+            opts.append("PGET " + ty)
+        if not opts:
+            return "PGETP"
+        return r.choice(opts)
+
+    def other_type(self, ty):
+        """a type with a different D-Bus signature (mismatching request)"""
+        r = self.r
+        for _ in range(8):
+            o = r.choice(self.mix if r.random() < 0.6 else self.cat)
+            if esig(o) != esig(ty):
+                return o
+        return "y" if esig(ty) != "y" else "u"
+
+    # ---- the parser walk over known item types (None: only the dynamic API can read it)
+    def walk(self, types):
+        r = self.r
+        ops = []
+        n = len(types)
+        pos = 0
+        guard = 0
+        while pos < n and guard < 60:
+            guard += 1
+            ty = types[pos]
+            if ty is None:
+                ops += ["PGETM 1 y", "PGETP"]
+                pos += 1
+                continue
+            x = r.random()
+            run = 1
+            while pos + run < n and run < 5 and types[pos + run] is not None:
+                run += 1
+            mixrun = 0
+            while mixrun < run and types[pos + mixrun] in self.mixset:
+                mixrun += 1
+            if x < 0.18:
+                o = self.other_type(ty)
+                ops.append(self.single_get(o))                   # mismatching single request
+                if r.random() < 0.5:
+                    ops.append(r.choice(["PGETP", self.single_get(ty)]))
+                    pos += 1
+            elif x < 0.36 and mixrun >= 2:
+                k = r.randint(2, mixrun)
+                right = list(types[pos:pos + k])
+                if r.random() < 0.5:
+                    # one slot asks for another type: first, middle or last
+                    slots = list(right)
+                    j = r.choice([0, k - 1, r.randrange(k)])
+                    alt = self.alt_same_sig(slots[j]) if r.random() < 0.3 else slots[j]
+                    slots[j] = alt if alt != slots[j] else self.other_type(slots[j])
+                    if slots[j] not in self.mixset:
+                        slots[j] = "y" if esig(right[j]) != "y" else "u"
+                    ops.append("PGETM %d %s" % (k, " ".join(slots)))
+                    f = r.random()
+                    if f < 0.4:
+                        ops.append("PGETM %d %s" % (k, " ".join(right)))
+                        pos += k
+                    else:
+                        ops.append("PGETP" if f < 0.7 else self.single_get(ty))
+                        pos += 1
+                else:
+                    ops.append("PGETM %d %s" % (k, " ".join(right)))
+                    pos += k
+            elif x < 0.5 and ty in self.catset:
+                same = 1
+                while pos + same < n and same < 5 and types[pos + same] == ty:
+                    same += 1
+                if r.random() < 0.4:
+                    ops.append("PGETN %s %d" % (ty, min(5, same + 1)))     # one more than there are of this type
+                    ops.append(r.choice(["PGETP", self.single_get(ty)]))
+                    pos += 1
+                elif same >= 2:
+                    k = r.randint(2, same)
+                    ops.append("PGETN %s %d" % (ty, k))
+                    pos += k
+                else:
+                    ops.append("PGET " + ty)
+                    pos += 1
+            elif x < 0.62:
+                ops.append("PGETP")
+                pos += 1
+            else:
+                ops.append(self.single_get(ty))
+                pos += 1
+        ops += [r.choice(["PGET y", "PGETM 1 y"]), "PGETP", "PGETM 2 y y"]
+        return ops
+
+    def alt_same_sig(self, ty):
+        """another Rust type with the same D-Bus signature (Var<T> with another T), else the type itself"""
+        alts = [m for m in self.by_esig.get(esig(ty), []) if m != ty]
+        return self.r.choice(alts) if alts else ty
+
+    # ---- generic histories
+    def generic(self, length):
+        r = self.r
+        ops = ["BNEW " + r.choice(["le", "be"])]
+        items = []                      # types of the committed items, in order (None: only get_param reads it)
+        for _ in range(length):
+            k = r.random()
+            frommix = r.random() < 0.45
+            ty = r.choice(self.mix if frommix else self.cat)
+            t = wg.parse_ext(ty)
+            bad = r.random() < 0.3 and wg.count_leaves(t, "sogh") > 0
+            if k < 0.25:
+                op, isbad = self.push_group([ty], 0 if bad else -1)
+                ops.append(op)
+                if not isbad:
+                    items.append(ty)
+            elif k < 0.42:
+                n = r.choice([2, 2, 3, 4, 5, 6])
+                if not frommix or n > 5:
+                    ty = ty if ty in self.catset else r.choice(self.cat)
+                    t = wg.parse_ext(ty)
+                    bad = bad and wg.count_leaves(t, "sogh") > 0
+                    badpos = r.randrange(n) if bad else -1
+                    vals = []
+                    anybad = False
+                    for i in range(n):
+                        v, isbad = self.value(ty, bad=(i == badpos))
+                        anybad = anybad or isbad
+                        vals.append(v)
+                    ops.append("BPUSHN %s %d %s" % (ty, n, " ".join(vals)))
+                else:
+                    op, anybad = self.push_group([ty] * n, r.randrange(n) if bad else -1)
+                    ops.append(op)
+                if not anybad:
+                    items += [ty] * n
+            elif k < 0.55:
+                # different types in one push_param2..5
+                n = r.choice([2, 3, 4, 5])
+                tys = [r.choice(self.mix) for _ in range(n)]
+                cands = [i for i, x in enumerate(tys) if wg.count_leaves(wg.parse_ext(x), "sogh") > 0]
+                badpos = r.choice(cands) if cands and r.random() < 0.4 else -1
+                vals = []
+                anybad = False
+                for i, x in enumerate(tys):
+                    v, isbad = self.value(x, bad=(i == badpos))
+                    anybad = anybad or isbad
+                    vals.append(v)
+                ops.append("BPUSHM %d %s" % (n, " ".join("%s %s" % (x, v) for x, v in zip(tys, vals))))
+                if not anybad:
+                    items += tys
+            elif k < 0.67:
+                ty = ty if ty in self.catset else r.choice(self.cat)
+                t = wg.parse_ext(ty)
+                bad = bad and wg.count_leaves(t, "sogh") > 0
+                v, isbad = self.value(ty, bad=bad)
+                ops.append("BPUSHV %s %s" % (ty, v))
+                if not isbad:
+                    vt = "v[%s]" % ty
+                    items.append(vt if (vt in self.catset or vt in self.mixset) else None)
+            elif k < 0.8:
+                v, isbad = self.value(ty, bad=bad)
+                ops.append("BOLD " + v)
+                if not isbad:
+                    items.append(ty)
+            elif k < 0.9:
+                n = r.choice([1, 2, 3])
+                badpos = r.randrange(n) if bad else -1
+                vals = []
+                anybad = False
+                for i in range(n):
+                    v, isbad = self.value(ty, bad=(i == badpos))
+                    anybad = anybad or isbad
+                    vals.append(v)
+                ops.append("BOLDS %d %s" % (n, " ".join(vals)))
+                if not anybad:
+                    items += [ty] * n
+            else:
+                ops.append("BRESET")
+                items = []
+        # near misses: a value of a slightly different type (pushed through the dynamic API, which can express any
+        # struct), asked for as the catalogue type: must be WrongSignature, never a misread
+        near = []
+        for _ in range(r.choice([0, 1, 2])):
+            ty = r.choice(self.cat)
+            t = wg.parse_ext(ty)
+            cands = [nm for nm in wg.near_misses(t) if wg.erased(nm) != wg.erased(t) and _struct_arity_ok(nm) and not _has_variant(nm)]
+            if not cands:
+                continue
+            nm = r.choice(cands)
+            toks, _ = wg.gen_value(r, nm, bad=False, dict_sizes=(0, 1))
+            ops.append("BOLD " + " ".join(toks))
+            near.append(ty)
+        ops.append("PNEW")
+        walk = self.walk(items)
+        ops += walk[:-3]
+        for ty in near:
+            ops.append("PGET " + ty)          # the near miss: wrong signature expected
+            ops.append("PGETN %s 2" % ty)
+            ops.append("PGETP")               # the dynamic API reads it
+        ops += walk[-3:]
+        return ops
+
+    # ---- decode-error histories
+    def decode(self):
+        r = self.r
+        bo = r.choice(["le", "be"])
+        n = r.choice([2, 3, 3, 4, 4, 5, 6])
+        mode = r.choice(["corrupt", "corrupt", "corrupt", "varmismatch"])
+        variants = [m for m in self.mix if "v[" in m]
+        types = []
+        if r.random() < 0.3:
+            base = r.choice(self.rich)
+            types = [base] * n                                   # a retry at a moved cursor meets a value of the same type
+        else:
+            types = [r.choice(self.rich if r.random() < 0.8 else self.mix) for _ in range(n)]
+        if mode == "varmismatch" and not any("v[" in t for t in types):
+            types[r.randrange(n)] = r.choice(variants)
+        vals = []
+        for ty in types:
+            # non-empty containers where possible: the fault should be deep inside
+            best = None
+            for _ in range(4):
+                v, _ = self.value(ty)
+                if best is None or len(v) > len(best):
+                    best = v
+            vals.append(best)
+        ops = ["BNEW " + bo]
+        i = 0
+        while i < n:
+            g = r.choice([1, 1, 2, 3, 5])
+            g = min(g, n - i)
+            # push_group generates its own values: build the op here from the chosen ones
+            tys = types[i:i + g]
+            vs = vals[i:i + g]
+            if g == 1 and tys[0] in self.catset and r.random() < 0.3:
+                ops.append("BPUSH %s %s" % (tys[0], vs[0]))
+            elif r.random() < 0.3:
+                ops.append("BOLD " + vs[0] if g == 1 else "BOLDS %d %s" % (g, " ".join(vs)))
+            else:
+                ops.append("BPUSHM %d %s" % (g, " ".join("%s %s" % (t, v) for t, v in zip(tys, vs))))
+            i += g
+        if mode == "varmismatch":
+            c = r.choice([i for i, t in enumerate(types) if "v[" in t])
+            ops.append("PNEW")
+            bad_req = self.alt_same_sig(types[c])
+            label = "varmismatch"
+        else:
+            e = Enc(bo == "be")
+            ranges = []
+            for v in vals:
+                start = len(e.buf)
+                tree, _ = wg.parse_tokens(v.split(), 0)
+                e.enc(tree)
+                ranges.append((start, len(e.buf)))
+            c = r.choice([0] + [1, 2] * 3 + [n - 1] * 2 + [r.randrange(n)])
+            c = min(c, n - 1)
+            buf, label = self.fault(bytearray(e.buf), e.marks, ranges, c, bo == "be")
+            if label.startswith("none"):
+                # nothing in this value can be wrong: take another value that has something
+                for c2 in r.sample(range(n), n):
+                    buf, label = self.fault(bytearray(e.buf), e.marks, ranges, c2, bo == "be")
+                    if not label.startswith("none"):
+                        c = c2
+                        break
+            ops.append("PNEWX " + wg.hx(bytes(buf)))
+            ops.append("#expect " + wg.hx(bytes(e.buf)))          # (stripped before running) the aimed-at clean bytes
+            bad_req = types[c]
+        # the walk: values before s one by one, then a multi-get over s..e with the failing value c inside
+        s = r.randint(max(0, c - 4), c)
+        pos = 0
+        while pos < s:
+            ops.append(r.choice([self.single_get(types[pos]), "PGETP"]))
+            pos += 1
+        e_ = r.randint(c, min(n - 1, s + 4))
+        k = e_ - s + 1
+        if k >= 2 and r.random() < 0.85:
+            slots = list(types[s:e_ + 1])
+            slots[c - s] = bad_req
+            ops.append("PGETM %d %s" % (k, " ".join(slots)))             # fails at slot c - s: first, middle or last
+            if r.random() < 0.5:
+                ops.append("PGETM %d %s" % (k, " ".join(slots)))         # again
+        while pos < c:
+            ops.append(r.choice([self.single_get(types[pos]), "PGETP"]))
+            pos += 1
+        # at the failing value: requests that must fail and leave the parser where it is ...
+        ops.append(self.single_get(bad_req) if bad_req in self.mixset else "PGETM 1 " + bad_req)
+        follow = [self.single_get(bad_req)]
+        alt = self.alt_same_sig(types[c])
+        if alt != types[c]:
+            follow.append("PGETM 1 " + alt)
+        if c + 1 < n:
+            follow.append("PGETM 2 %s %s" % (bad_req, types[c + 1]))
+            if esig(types[c + 1]) != esig(types[c]):
+                follow.append(self.single_get(types[c + 1]))              # mismatching
+            if c + 2 < n:
+                follow.append("PGETM 3 %s %s %s" % (bad_req, types[c + 1], types[c + 2]))
+        r.shuffle(follow)
+        ops += follow[:r.randint(1, len(follow))]
+        # ... then the requests that show where it is: the dynamic decoder and the typed get of the right type
+        if mode == "varmismatch":
+            # the value is good: the right request reads it and the walk goes on
+            ops.append(r.choice(["PGETP", self.single_get(types[c])]))
+            ops += self.walk(types[c + 1:])
+        else:
+            shows = ["PGETP", self.single_get(types[c])]
+            r.shuffle(shows)
+            ops += shows
+            for ty in types[c + 1:c + 3]:
+                ops.append(self.single_get(ty))
+            ops.append(r.choice(["PGETP", self.single_get(types[c])]))
+        return ops, label
+
+    def fault(self, buf, marks, ranges, c, be):
+        """one fault inside value c (late marks preferred, so that the decoder has consumed bytes before it fails)"""
+        r = self.r
+        order = "big" if be else "little"
+        lo, hi = ranges[c]
+        ms = sorted([m for m in marks if lo <= m[1] < hi], key=lambda m: m[1])
+        cands = []
+        for i, m in enumerate(ms):
+            cands += [m] * (1 + i)                                 # later marks more often
+        if hi - lo >= 2:
+            cands += [("trunc", r.randrange(lo + 1, hi), 0)] * max(1, len(ms) // 3)
+        if not cands:
+            return buf, "none"
+        kind, p, ln = r.choice(cands)
+        if kind == "trunc":
+            return buf[:p], "trunc"
+        if kind == "pad":
+            buf[p] = r.choice([1, 255, 0x80])
+        elif kind == "bool":
+            buf[p:p + 4] = r.choice([2, 3, 256, 0xFFFFFFFF, 0x01000001]).to_bytes(4, order)
+        elif kind == "sbody":
+            buf[p + r.randrange(ln)] = r.choice([0xFF, 0xC0, 0x00, 0x80])
+            kind = "text-byte"
+        elif kind == "term":
+            buf[p] = r.choice([1, 0x61, 255])
+        elif kind in ("slen", "alen"):
+            v = int.from_bytes(buf[p:p + 4], order)
+            nv = r.choice([v + 1, v + 4, v + 8, max(0, v - 1), (1 << 26) + 1, 0xFFFFFF00, v + 3])
+            buf[p:p + 4] = (nv % (1 << 32)).to_bytes(4, order)
+        elif kind == "glen":
+            buf[p] = (buf[p] + r.choice([1, 255, 7])) % 256
+        elif kind == "vsig":
+            swap = {ord("u"): "i", ord("i"): "u", ord("t"): "x", ord("x"): "t", ord("s"): "o", ord("b"): "u", ord("y"): "g", ord("o"): "s"}
+            if ln >= 3 and buf[p + 1] in swap and r.random() < 0.7:
+                buf[p + 1] = ord(swap[buf[p + 1]])                 # another valid signature of the same shape
+                kind = "vsig-swap"
+            else:
+                buf[p] = (buf[p] + r.choice([1, 255])) % 256
+                kind = "vsig-len"
+        return buf, kind
+
+    # ---- long signatures
+    def long_sig(self):
+        r = self.r
+        ops = ["BNEW " + r.choice(["le", "be"])]
+        target = r.choice([253, 254, 254, 255, 255, 256, 256, 257, 258, r.randint(259, 300), r.randint(300, 420)])
+        cur = 0
+        items = []
+        # one or two big steps
+        while target - cur > 30:
+            ty = r.choice([t for t in self.cat if 5 <= len(esig(t)) <= 13 and wg.depth_of(wg.parse_ext(t)) <= 3])
+            L = len(esig(ty))
+            kmax = (target - cur) // L
+            k = r.randint(max(2, kmax // 2), kmax) if kmax >= 2 else 1
+            if k < 2:
+                break
+            vals = [self.value(ty)[0] for _ in range(k)]
+            if r.random() < 0.7:
+                ops.append("BPUSHN %s %d %s" % (ty, k, " ".join(vals)))
+            else:
+                ops.append("BOLDS %d %s" % (k, " ".join(vals)))
+            items += [ty] * k
+            cur += k * L
+        d = target - cur
+        while d > 0:
+            k = d if d <= 5 or r.random() < 0.5 else r.randint(1, min(d, 5))
+            k = min(k, 40)
+            if k == 1:
+                ops.append(r.choice(["BPUSH y y 7", "BOLD y 9", "BPUSHM 1 y y 1", "BPUSHV y y 3"]))
+            else:
+                ops.append("BPUSHN y %d %s" % (k, " ".join("y %d" % r.randrange(256) for _ in range(k))))
+            items += ["y"] * k                                    # (a variant of y reads as None; fixed below)
+            if ops[-1].startswith("BPUSHV"):
+                items[-1] = "v[y]"
+            d -= k
+        # failing pushes of every kind around the boundary, small successful pushes in between
+        kinds = ["push", "pushv", "pushn", "pushm", "old", "olds", "oldtree", "params"]
+        r.shuffle(kinds)
+        for kind in kinds[:r.randint(4, 8)]:
+            ops.append(self.failing(kind))
+            if r.random() < 0.55:
+                step = r.choice(["BPUSH y y 1", "BOLD y 2", "BPUSHV y y 3", "BPUSHM 1 y y 4", "BPUSHN y 2 y 1 y 2", "BPUSH s s 6162"])
+                ops.append(step)
+                items += {"BPUSHV y y 3": ["v[y]"], "BPUSHN y 2 y 1 y 2": ["y", "y"], "BPUSH s s 6162": ["s"]}.get(step, ["y"])
+        if r.random() < 0.6:
+            ops.append("BRESET")
+            items = []
+            for _ in range(r.randint(1, 3)):
+                if r.random() < 0.5:
+                    ops.append(self.failing(r.choice(kinds)))
+                else:
+                    ty = r.choice(self.mix)
+                    ops.append("BPUSHM 1 %s %s" % (ty, self.value(ty)[0]))
+                    items.append(ty)
+        ops.append("PNEW")
+        # a short walk: the first few and whatever the walk reaches
+        ops += self.walk(items[:r.choice([0, 2, 4])])
+        return ops
+
+    def failing(self, kind):
+        """a builder op that must fail after part of it was written (where the type allows it)"""
+        r = self.r
+        late = [t for t in self.failable if t[0] in "(a"] or self.failable
+        if kind == "push":
+            ty = r.choice(late)
+            return "BPUSH %s %s" % (ty, self.value(ty, bad=True)[0])
+        if kind == "pushv":
+            ty = r.choice(late)
+            return "BPUSHV %s %s" % (ty, self.value(ty, bad=True)[0])
+        if kind in ("pushn", "params"):
+            ty = r.choice(self.failable)
+            n = r.choice([2, 3, 4, 5]) if kind == "pushn" else r.choice([6, 7, 9])
+            badpos = r.choice([n - 1, n - 1, r.randrange(1, n)])
+            vals = [self.value(ty, bad=(i == badpos))[0] for i in range(n)]
+            return "BPUSHN %s %d %s" % (ty, n, " ".join(vals))
+        if kind == "pushm":
+            n = r.choice([2, 3, 4, 5])
+            tys = [r.choice(self.mix) for _ in range(n)]
+            badpos = r.choice([n - 1, r.randrange(1, n)])
+            tys[badpos] = r.choice(self.mix_failable)
+            vals = [self.value(t, bad=(i == badpos))[0] for i, t in enumerate(tys)]
+            return "BPUSHM %d %s" % (n, " ".join("%s %s" % (t, v) for t, v in zip(tys, vals)))
+        if kind == "old":
+            ty = r.choice(late)
+            return "BOLD " + self.value(ty, bad=True)[0]
+        if kind == "olds":
+            ty = r.choice(self.failable)
+            n = r.choice([2, 3, 4])
+            badpos = r.choice([n - 1, r.randrange(1, n)])
+            vals = [self.value(ty, bad=(i == badpos))[0] for i in range(n)]
+            return "BOLDS %d %s" % (n, " ".join(vals))
+        # oldtree: a good value first, then a tree with a struct without fields deep inside
+        good = self.value(r.choice(self.cat))[0]
+        return "BOLDS 2 %s %s" % (good, self.badtree()[0])
+
+    # ---- inconsistent Param trees
+    def badtree(self):
+        """(tokens, kind) of a Param tree no typed value can have"""
+        r = self.r
+        ty = r.choice([t for t in self.cat if not t[0].isalpha() or t[0] in "av"] or self.cat)
+        toks, _ = wg.gen_value(r, wg.parse_ext(ty), bad=False, dict_sizes=(0, 1))
+        tree, _ = wg.parse_tokens(toks, 0)
+        empty = ("r", [])
+        kind = r.choice(["empty-struct", "empty-struct", "empty-struct", "variant-sig", "array-elem", "dict-types", "wrap"])
+        sigs = ["y", "u", "i", "s", "t", "ay", "as", "(yy)", "(s)", "a{sv}", "v", "b", "o", "(ys)", "aay"]
+
+        # paths to all nodes: list of index tuples
+        def nodes(t, path, out):
+            out.append((path, t))
+            k = t[0]
+            if k == "a":
+                for i, x in enumerate(t[2]):
+                    nodes(x, path + (i,), out)
+            elif k == "r":
+                for i, x in enumerate(t[1]):
+                    nodes(x, path + (i,), out)
+            elif k == "e":
+                for i, (a, b) in enumerate(t[3]):
+                    nodes(b, path + (i,), out)
+            elif k == "v":
+                nodes(t[2], path + (0,), out)
+            return out
+
+        def replace(t, path, f):
+            if not path:
+                return f(t)
+            i, rest = path[0], path[1:]
+            k = t[0]
+            if k == "a":
+                return ("a", t[1], [replace(x, rest, f) if j == i else x for j, x in enumerate(t[2])])
+            if k == "r":
+                return ("r", [replace(x, rest, f) if j == i else x for j, x in enumerate(t[1])])
+            if k == "e":
+                return ("e", t[1], t[2], [(a, replace(b, rest, f)) if j == i else (a, b) for j, (a, b) in enumerate(t[3])])
+            return ("v", t[1], replace(t[2], rest, f))
+        allnodes = nodes(tree, (), [])
+        if kind == "empty-struct":
+            # any position: root, array element, struct field (first/middle/last), map value, variant content; or a new
+            # field / element that is an empty struct
+            path, node = r.choice(allnodes)
+            how = r.choice(["replace", "replace", "append-field", "prepend-field", "append-elem"])
+            if how == "replace" or node[0] not in ("r", "a"):
+                out = replace(tree, path, lambda t: empty)
+            elif node[0] == "r" and how == "append-field":
+                out = replace(tree, path, lambda t: ("r", t[1] + [empty]))
+            elif node[0] == "r":
+                out = replace(tree, path, lambda t: ("r", [empty] + t[1]))
+            else:
+                out = replace(tree, path, lambda t: ("a", t[1], t[2] + [empty]))
+        elif kind == "variant-sig":
+            vs = [(p, n) for p, n in allnodes if n[0] == "v"]
+            if vs:
+                path, node = r.choice(vs)
+                out = replace(tree, path, lambda t: ("v", r.choice([s for s in sigs if s != tree_sig(t[2])]), t[2]))
+            else:
+                out = ("v", r.choice([s for s in sigs if s != tree_sig(tree)]), tree)
+        elif kind == "array-elem":
+            arr = [(p, n) for p, n in allnodes if n[0] == "a" and n[2]]
+            if arr:
+                path, node = r.choice(arr)
+                if r.random() < 0.5 or len(node[2]) < 1:
+                    out = replace(tree, path, lambda t: ("a", r.choice([s for s in sigs if s != t[1]]), t[2]))
+                else:
+                    # one element (first, middle or last) of another type
+                    other = ("b", "u", "7") if node[1] != "u" else ("b", "y", "7")
+                    j = r.choice([0, len(node[2]) - 1, r.randrange(len(node[2]))])
+                    out = replace(tree, path, lambda t: ("a", t[1], [other if i == j else x for i, x in enumerate(t[2])]))
+            else:
+                out = ("a", r.choice([s for s in sigs if s != tree_sig(tree)]), [tree])
+        elif kind == "dict-types":
+            ds = [(p, n) for p, n in allnodes if n[0] == "e" and n[3]]
+            if ds:
+                path, node = r.choice(ds)
+                if r.random() < 0.5:
+                    out = replace(tree, path, lambda t: ("e", r.choice([c for c in "yusqt" if c != t[1]]), t[2], t[3]))
+                else:
+                    out = replace(tree, path, lambda t: ("e", t[1], r.choice([s for s in sigs if s != t[2]]), t[3]))
+            else:
+                out = ("e", "y", r.choice([s for s in sigs if s != tree_sig(tree)]), [(("b", "y", "1"), tree)])
+        else:
+            out = r.choice([("r", [tree, empty]), ("r", [empty, tree]), ("a", "(y)", [empty]), ("a", "(y)", [("r", [("b", "y", "1")]), empty]),
+                            ("v", "(y)", empty), ("e", "y", "(y)", [(("b", "y", "1"), empty)]), empty,
+                            ("r", [("r", [("r", [empty])])]), ("v", tree_sig(tree), ("r", [tree, ("v", "y", empty)]))])
+        return " ".join(wg.print_tree(out, False)), kind
+
+    def badtrees(self):
+        r = self.r
+        ops = ["BNEW " + r.choice(["le", "be"])]
+        kinds = []
+        nops = r.randint(2, 6)
+        for _ in range(nops):
+            x = r.random()
+            if x < 0.3:
+                ty = r.choice(self.mix)
+                ops.append("BPUSHM 1 %s %s" % (ty, self.value(ty)[0]))
+            elif x < 0.7:
+                t, kind = self.badtree()
+                kinds.append(kind)
+                ops.append("BOLD " + t)
+            else:
+                n = r.choice([2, 3])
+                vals = [self.value(r.choice(self.cat))[0] for _ in range(n)]
+                t, kind = self.badtree()
+                kinds.append(kind)
+                vals[r.choice([n - 1, r.randrange(n)])] = t
+                ops.append("BOLDS %d %s" % (n, " ".join(vals)))
+        ops.append("PNEW")
+        ops += ["PGETP"] * r.randint(1, nops + 1)
+        return ops, kinds
 
 
 def _struct_arity_ok(t):
@@ -150,95 +860,156 @@ def _has_variant(t):
     return False
 
 
-def run(ctx):
-    thorough = ctx.tier == "thorough"
-    ctx.rule = ("case = one history: BNEW, <= 12 builder operations (typed push, push_param2..5/push_params, push_variant, "
-                "push_old_param(s), reset; 30% with a failing element at a random inner position), then a parser walk with "
-                "matching, mismatching and over-long requests; every operation's result and the full state after it are compared; "
-                "non-trivial = the history contains at least one failing operation or a reset; distinct = distinct histories")
-    ctx.trusted = ["Coq 8.16.1 kernel", "extraction (ExtrOcamlBasic only) + ocaml/wire/driver.ml (keeps the current body/parser between lines)",
-                   "harness/src/bin/c15.rs, wirelib.rs, catalogue.rs"]
-    ctx.assumptions = ["usize 64 bit, native little endian",
-                       "HashMap values are pushed with at most one entry in histories (iteration order would differ between runs)"]
-    if not os.environ.get("VERIF_SKIP_PROOF"):
-        ctx.try_proof()
-    exe = vlib.harness_build(["c15"])["c15"]
-    vlib.coq_make(["Wire/Body.vo", "Wire/Ops.vo"])
-    drv = vlib.ocaml_build("wire")
-    r = ctx.sub_rng("c15")
-    # catalogue types without multi-entry maps: generate dict values with <= 1 entry instead (sizes tuple)
-    cat = [t for t in wg.catalogue()]
-    nhist = 3000 if thorough else 400
-    histories = []
-    old_sizes = wg.ValGen.__init__.__defaults__
-    for _ in range(nhist):
-        histories.append(gen_history(r, cat, r.choice([1, 2, 3, 5, 8, 12])))
-    # one-entry dicts: rewrite "e k v n ..." with n > 1 is avoided by regenerating through a size-limited generator
-    lines = [l for h in histories for l in h]
-    ok, impl, err = vlib.par_run_lines(exe, [], lines, shards=1)
-    if not ok:
-        ctx.tie_broken("c15 harness crashed", err)
-        return
-    ok, model, err = vlib.par_run_lines(drv, [], lines, shards=1)
-    if not ok:
-        ctx.tie_broken("extracted body model crashed", err)
-        return
-    pos = 0
-    for h in histories:
-        n = len(h)
-        hi, hm = impl[pos:pos + n], model[pos:pos + n]
-        pos += n
-        nontrivial = any(l.split(" ")[0] == "err" for l in hi) or "BRESET" in h
-        ctx.case("\n".join(h), nontrivial=nontrivial,
-                 sample={"history": [x[:100] for x in h[:8]], "impl": [x[:100] for x in hi[:8]]} if ctx.evaluations % 97 == 0 else None)
-        ctx.count("ops", n)
-        prev_state = None
-        prev_pstate = None
-        why = None
-        where = None
-        for k, (op, li, lm) in enumerate(zip(h, hi, hm)):
-            opname = op.split(" ")[0]
-            res, st, val = parse_state(li)
-            resm, stm, valm = parse_state(lm)
-            ctx.count("op:" + opname)
-            ctx.count("res:" + opname[0] + ":" + res)
-            if opname[0] == "B":
-                state = (st.get("sig"), st.get("buf"), st.get("nfds"))
-                if res not in ("ok", "err"):
-                    why, where = "builder operation neither succeeded nor failed (%s)" % res, k
-                elif res == "err" and prev_state is not None and state != prev_state:
-                    why, where = "a push that returned an error left a trace in the body", k
-                elif opname == "BRESET" and state != ("-", "-", "0"):
-                    why, where = "reset left something attached", k
-                elif (res, state) != (resm, (stm.get("sig"), stm.get("buf"), stm.get("nfds"))):
-                    # the model state is the specification's rendering of the committed items (theorem C15_builder);
-                    # dict order can differ: compare canonically only through sizes when a multi-entry map was pushed
-                    if res == resm and st.get("sig") == stm.get("sig") and st.get("nfds") == stm.get("nfds") and len(st.get("buf", "")) == len(stm.get("buf", "")) and " e " in " " + op and _multi_entry(op):
-                        pass
-                    else:
-                        why, where = "body content differs from the committed values' encoding", k
-                prev_state = state
+# ----------------------------------------------------------------------------- running
+def run_histories(exe, histories, shards):
+    """each history in one process (they keep a body/parser between lines): whole histories are dealt to the shards"""
+    n = max(1, min(shards, (len(histories) + 39) // 40))
+    parts = [histories[i::n] for i in range(n)]
+
+    def one(part):
+        lines = [l for h in part for l in h]
+        rc, out, err = vlib.run_lines(exe, [], lines)
+        if rc != 0 or len(out) != len(lines):
+            return None, "rc=%s lines=%d/%d stderr=%s" % (rc, len(out), len(lines), err[-1500:])
+        res = []
+        pos = 0
+        for h in part:
+            res.append(out[pos:pos + len(h)])
+            pos += len(h)
+        return res, ""
+    results = [None] * len(histories)
+    errs = []
+    with cf.ThreadPoolExecutor(n) as ex:
+        for i, (res, err) in enumerate(ex.map(one, parts)):
+            if res is None:
+                errs.append(err)
+                continue
+            for k, o in enumerate(res):
+                results[i + k * n] = o
+    return (not errs), results, "\n".join(errs)
+
+
+def load_corpus():
+    out = []
+    for f in sorted(glob.glob(os.path.join(vlib.VERIF, "corpus", "C15", "*.case"))):
+        cur = []
+        for line in open(f):
+            line = line.rstrip("\n")
+            if line.startswith("#"):
+                continue
+            if not line.strip():
+                if cur:
+                    out.append(cur)
+                cur = []
             else:
-                pstate = (st.get("next"), st.get("left"))
-                cres = res if res in ("ok",) else "fail"
-                cresm = resm if resm in ("ok",) else "fail"
-                if res not in ("ok", "err", "wrongsig", "end"):
-                    why, where = "parser operation neither succeeded nor failed (%s)" % res, k
-                elif opname != "PNEW" and cres == "fail" and prev_pstate is not None and pstate != prev_pstate:
-                    why, where = "a failed get moved the parser", k
-                elif cres != cresm or pstate != (stm.get("next"), stm.get("left")) or (cres == "ok" and wg.canon(_fdnorm(val)) != wg.canon(_fdnorm(valm))):
-                    why, where = "parser result differs from the model (type check, value or position)", k
-                prev_pstate = pstate
-            if why:
-                break
-        if why:
-            ctx.disagreements_checked += 1
-            is_tie = why.startswith("parser result differs") or why.startswith("body content differs")
-            data = {"history": h[:where + 1], "impl": hi[:where + 1][-3:], "model": hm[:where + 1][-3:], "at": where}
-            if is_tie and not _property_violated(h, hi, where):
-                ctx.tie_broken("correspondence: " + why, str(data)[:3000])
+                cur.append(line)
+        if cur:
+            out.append(cur)
+    return out
+
+
+PROTOCOL_WORDS = ("NOTYPE", "NOOP", "?", "BAD", "PANIC", "badsig", "noparser", "CRASH")
+
+
+def requested_sigs(op):
+    """the D-Bus signatures a parser op asks for (None: get_param)"""
+    p = op.split(" ")
+    if p[0] == "PGET":
+        return [esig(p[1])]
+    if p[0] == "PGETN":
+        return [esig(p[1])] * int(p[2])
+    if p[0] == "PGETM":
+        return [esig(x) for x in p[2:2 + int(p[1])]]
+    return None
+
+
+def check_history(ctx, h, hi, hm):
+    """returns None or (why, where, is_tie).  is_tie: the difference is one between model and implementation (to be decided by
+    evaluating the property on the implementation's own outputs)"""
+    prev_state = None
+    prev_p = None                 # (next, left, cur) of the implementation before this parser op
+    k = 0
+    n = len(h)
+    while k < n:
+        op, li, lm = h[k], hi[k], hm[k]
+        opname = op.split(" ")[0]
+        res, st, val = parse_state(li)
+        resm, stm, valm = parse_state(lm)
+        ctx.count("op:" + opname)
+        if res in PROTOCOL_WORDS or res.startswith("PANIC") or resm in PROTOCOL_WORDS or resm in ("panic", "ub", "fuel"):
+            return ("harness or driver did not understand the line / model outcome outside ok|err (%s | %s)" % (li[:60], lm[:60]), k, "protocol")
+        if opname[0] == "B":
+            ctx.count("res:B:" + res)
+            state = (st.get("sig"), st.get("buf"), st.get("nfds"))
+            if res == "panic":
+                return ("a builder operation panicked", k, False)
+            if res not in ("ok", "err"):
+                return ("builder operation neither succeeded nor failed (%s)" % res, k, "protocol")
+            if res == "err" and prev_state is not None and state != prev_state:
+                return ("a push that returned an error left a trace in the body", k, False)
+            if opname == "BRESET" and state != ("-", "-", "0"):
+                return ("reset left something attached", k, False)
+            if (res, state) != (resm, (stm.get("sig"), stm.get("buf"), stm.get("nfds"))):
+                # the model state is the specification's rendering of the committed items (theorem C15_builder);
+                # map iteration order can differ: only sizes are compared when a multi-entry map was pushed
+                if not (res == resm and st.get("sig") == stm.get("sig") and st.get("nfds") == stm.get("nfds")
+                        and len(st.get("buf", "")) == len(stm.get("buf", "")) and " e " in " " + op and _multi_entry(op)):
+                    return ("body content differs from the committed values' encoding", k, True)
+            if len(st.get("sig", "-")) // 2 > 255 and st.get("sig") != "-":
+                ctx.count("builder-op-with-signature>255:" + res)
+            prev_state = state
+            k += 1
+            continue
+        # parser op followed by its PCUR line
+        cur_i = cur_m = None
+        step = 1
+        if k + 1 < n and h[k + 1] == "PCUR":
+            cur_i, cur_m = hi[k + 1], hm[k + 1]
+            step = 2
+            if not cur_i.startswith("cur=") or not cur_m.startswith("cur="):
+                return ("PCUR answered %s | %s" % (cur_i[:40], cur_m[:40]), k + 1, "protocol")
+            if cur_i == "cur=?":
+                ctx.count("cursor-unobservable")
+                cur_i = cur_m = None
+        if res == "panic":
+            return ("a parser operation panicked", k, False)
+        if res not in ("ok", "err", "wrongsig", "end"):
+            return ("parser operation neither succeeded nor failed (%s)" % res, k, "protocol")
+        failed = res != "ok"
+        failedm = resm != "ok"
+        ctx.count("res:P:" + res)
+        pstate = (st.get("next"), st.get("left"), cur_i)
+        if opname in ("PNEW", "PNEWX"):
+            if (st.get("next"), st.get("left"), cur_i) != (stm.get("next"), stm.get("left"), cur_m):
+                return ("new parser differs from the model", k, True)
+            prev_p = pstate
+            k += step
+            continue
+        if failed and prev_p is not None:
+            moved = (pstate[0], pstate[1]) != (prev_p[0], prev_p[1]) or (pstate[2] is not None and prev_p[2] is not None and pstate[2] != prev_p[2])
+            if moved:
+                return ("a failed get moved the parser (next signature / signatures left / buf_idx,sig_idx: %s -> %s)" % (prev_p, pstate), k, False)
+            ctx.count("failed-get-checked:" + res)
+        if not failed and prev_p is not None and prev_p[2] is not None and pstate[2] is not None:
+            # advanced by exactly the types returned (signature side, on the implementation's own output)
+            want = requested_sigs(op)
+            b0, s0 = [int(x) for x in prev_p[2][4:].split(",")]
+            b1, s1 = [int(x) for x in pstate[2][4:].split(",")]
+            if want is None:
+                nxt = prev_p[0]
+                want_len = len(nxt) // 2 if nxt not in (None, "none") else None
+                cnt = 1
             else:
-                ctx.violation(why, data)
+                want_len = sum(len(x) for x in want)
+                cnt = len(want)
+            if want_len is not None and (s1 - s0 != want_len or b1 < b0 or int(prev_p[1]) - int(pstate[1]) != cnt):
+                return ("a successful get did not advance by exactly the types returned (cursors %s -> %s, asked %s)" % (prev_p[2], pstate[2], want), k, False)
+        if (failed != failedm or (pstate[0], pstate[1]) != (stm.get("next"), stm.get("left")) or (cur_i is not None and cur_i != cur_m)
+                or (not failed and wg.canon(_fdnorm(val)) != wg.canon(_fdnorm(valm)))):
+            return ("parser result differs from the model (type check, value or position)", k, True)
+        prev_p = pstate
+        k += step
+    return None
 
 
 def _multi_entry(op):
@@ -261,12 +1032,264 @@ def _fdnorm(val):
     return " ".join(out)
 
 
-def _property_violated(h, hi, where):
-    """For a model/implementation difference: is it a violation of the property text on its own?
-    - builder: the model is the proved rendering of committed values, so a difference in body content IS the property
-      (content must describe exactly the values pushed); - parser: a wrong value / position after a successful get is
-      a misread."""
-    return True
+# ----------------------------------------------------------------------------- the property on the implementation's own outputs
+def _values_of(op):
+    """(list of value token lists, variant?) pushed by a builder op; None if not a push"""
+    p = op.split(" ")
+    name = p[0]
+    vals = []
+    if name in ("BPUSH", "BPUSHV"):
+        tree, _ = wg.parse_tokens(p, 2)
+        if name == "BPUSHV":
+            tree = ("v", esig(p[1]), tree)
+        return [tree]
+    if name == "BPUSHN":
+        pos = 3
+        for _ in range(int(p[2])):
+            tree, pos = wg.parse_tokens(p, pos)
+            vals.append(tree)
+        return vals
+    if name == "BPUSHM":
+        pos = 2
+        for _ in range(int(p[1])):
+            tree, pos = wg.parse_tokens(p, pos + 1)
+            vals.append(tree)
+        return vals
+    if name == "BOLD":
+        return [wg.parse_tokens(p, 1)[0]]
+    if name == "BOLDS":
+        pos = 2
+        for _ in range(int(p[1])):
+            tree, pos = wg.parse_tokens(p, pos)
+            vals.append(tree)
+        return vals
+    return None
+
+
+def _spec_bytes(drv, be, pos, trees, nfds):
+    """the specification's encoding of these values one after the other from offset pos (descriptor leaves numbered from
+    nfds): (bytes, all encodable) through the driver's SE op"""
+    out = b""
+    allok = True
+    counter = [nfds]
+
+    def f(tag, payload):
+        if tag == "h":
+            counter[0] += 1
+            return str(counter[0] - 1)
+        return payload
+    for t in trees:
+        taken = []
+        wg.map_leaves(t, lambda tag, p: taken.append(p) if tag == "h" and p != "0" else p)
+        toks = wg.print_tree(wg.map_leaves(t, f), False)
+        _, ans, _ = vlib.run_lines(drv, [], ["SE %s %d %s" % ("be" if be else "le", pos + len(out), " ".join(toks))])
+        a = ans[0] if ans else ""
+        if not a.startswith("spec="):
+            return None, False
+        hexs = a.split(" ")[0][5:]
+        out += bytes.fromhex(hexs) if hexs != "-" else b""
+        if "encodable=true" not in a or taken:
+            allok = False
+    return out, allok
+
+
+def property_violated(drv, h, hi, where):
+    """A model/implementation difference at line `where`: is the PROPERTY violated, judged on the implementation's outputs
+    and the extracted specification alone?  Returns (violated, explanation)."""
+    op = h[where]
+    name = op.split(" ")[0]
+    be = h[0].split(" ")[1] == "be"
+    res, st, val = parse_state(hi[where])
+
+    def hexb(x):
+        return bytes.fromhex(x) if x not in (None, "-") else b""
+    if name[0] == "B":
+        if res != "ok":
+            return False, "the implementation refused the push and left no trace; the property does not oblige it to accept"
+        prev = None
+        for j in range(where - 1, -1, -1):
+            if h[j].split(" ")[0][0] == "B":
+                prev = parse_state(hi[j])[1]
+                break
+        trees = _values_of(op)
+        if prev is None or trees is None:
+            return True, "no previous state to compare with"
+        if not all(consistent(t) for t in trees):
+            return True, ("the push succeeded for a Param tree that is not a value of any type (struct without fields, variant "
+                          "signature / declared element type different from the content): the body does not describe a value")
+        try:
+            spec, encodable = _spec_bytes(drv, be, len(hexb(prev.get("buf"))), trees, int(prev.get("nfds", "0")))
+        except Exception as e:                      # noqa: BLE001 - a tree the specification side cannot read
+            return True, "specification not evaluable (%s)" % e
+        wantsig = hexb(prev.get("sig")) + "".join(tree_sig(t) for t in trees).encode()
+        if not encodable:
+            return True, "the push succeeded although the specification has no encoding for the value"
+        if spec is None:
+            return True, "specification not evaluable"
+        if hexb(st.get("buf")) == hexb(prev.get("buf")) + spec and hexb(st.get("sig")) == wantsig:
+            return False, "the body is the previous body plus the specification's encoding of the pushed values"
+        if _multi_entry(op) and len(hexb(st.get("buf"))) == len(hexb(prev.get("buf")) + spec) and hexb(st.get("sig")) == wantsig:
+            return False, "same size; a multi-entry map may be written in another order"
+        return True, "the body is not the previous body plus the specification's encoding of the pushed values"
+    # parser
+    if name in ("PNEW", "PNEWX"):
+        return False, "creating a parser is not an operation the property speaks about"
+    if res != "ok":
+        return False, "the implementation's get failed and (checked separately) did not move; the property does not oblige it to succeed"
+    # the bytes the parser is over, the body signature, the cursors before and after
+    buf = sig = None
+    for j in range(where - 1, -1, -1):
+        nm = h[j].split(" ")[0]
+        if nm == "PNEWX" and buf is None:
+            buf = hexb(h[j].split(" ")[1])
+        if nm[0] == "B":
+            stb = parse_state(hi[j])[1]
+            sig = hexb(stb.get("sig")).decode("latin-1")
+            if buf is None:
+                buf = hexb(stb.get("buf"))
+            break
+    curs = []
+    for j in (where - 1, where + 1):
+        if 0 <= j < len(h) and h[j] == "PCUR" and hi[j].startswith("cur=") and hi[j] != "cur=?":
+            curs.append([int(x) for x in hi[j][4:].split(",")])
+        else:
+            curs.append(None)
+    if sig is None or curs[0] is None or curs[1] is None:
+        return True, "cursors not observable: the successful get cannot be justified from the implementation's outputs"
+    (b0, s0), (b1, s1) = curs
+    types = split_sig(sig[s0:])
+    want = requested_sigs(op)
+    if types is None:
+        return True, "the body signature does not parse from the cursor"
+    if want is not None and types[:len(want)] != want:
+        return True, "a request for %s was answered with values although the next signatures are %s (misread)" % (want, types[:len(want)])
+    cnt = len(want) if want is not None else 1
+    if s1 - s0 != sum(len(x) for x in types[:cnt]):
+        return True, "signature cursor not advanced by exactly the types returned"
+    toks = val.split()
+    trees = []
+    pos = 0
+    try:
+        while pos < len(toks):
+            t, pos = wg.parse_tokens(toks, pos)
+            trees.append(t)
+    except Exception:                              # noqa: BLE001
+        return True, "returned values unreadable"
+    if len(trees) != cnt:
+        return True, "number of values returned differs from the number asked for"
+    if any(x in val.split() for x in ("e", "h")):
+        return False, "maps / descriptors in the value: bytes not re-encoded (order / numbering is not part of the value printed)"
+    spec, encodable = _spec_bytes(drv, be, b0, trees, 0)
+    if spec is None or not encodable:
+        return True, "the value returned has no encoding in the specification"
+    if buf[b0:b1] == spec:
+        return False, "the bytes stepped over are the specification's encoding of the values returned"
+    return True, "byte cursor not advanced by exactly the encoding of the values returned (%d -> %d, encoding has %d bytes)" % (b0, b1, len(spec))
+
+
+def strip_meta(h):
+    return [l for l in h if not l.startswith("#")]
+
+
+def run(ctx):
+    thorough = ctx.tier == "thorough"
+    ctx.trusted = ["Coq 8.16.1 kernel", "extraction (ExtrOcamlBasic only) + ocaml/wire/driver.ml (keeps the current body/parser between lines)",
+                   "harness/src/bin/c15.rs (incl. the Slot types that let get2..5 / push_param2..5 run over types chosen per line, and the "
+                   "reading of buf_idx/sig_idx from the parser's derived Debug output), wirelib.rs, catalogue.rs"]
+    ctx.assumptions = ["usize 64 bit, native little endian",
+                       "HashMap values are pushed with at most one entry in histories (iteration order would differ between runs)"]
+    if not os.environ.get("VERIF_SKIP_PROOF"):
+        ctx.try_proof()
+    exe = vlib.harness_build(["c15"])["c15"]
+    vlib.coq_make(["Wire/Body.vo", "Wire/Ops.vo"])
+    drv = vlib.ocaml_build("wire")
+    r = ctx.sub_rng("c15")
+    # only types this harness binary can dispatch (the catalogue may be regenerated next to a running check)
+    _, ans, _ = vlib.run_lines(exe, [], ["TYPES"])
+    known = {}
+    for part in (ans[0].split(" ") if ans else []):
+        if "=" in part:
+            k, v = part.split("=", 1)
+            known[k] = v.split(",")
+    cat = [t for t in wg.catalogue() if t in set(known.get("catalogue", []))]
+    mix = list(known.get("mix", []))
+    if len(cat) < 100 or len(mix) < 20:
+        ctx.tie_broken("c15 harness does not report its types", str(ans)[:500])
+        return
+    ctx.extra["types"] = {"catalogue": len(cat), "mix": len(mix)}
+    n_generic, n_decode, n_long, n_tree = (12000, 12000, 2500, 3000) if thorough else (2400, 2600, 500, 700)
+    ctx.rule = ("case = one history on one real body/parser, run line by line against the extracted model. quick: %d generic (BNEW, <= 12 builder "
+                "operations: typed push, push_param2..5 with one or with different types, push_params, push_variant, push_old_param(s), reset; "
+                "30%% with a failing element at a random inner position; near-miss signatures; parser walk with matching, mismatching, over-long "
+                "and mixed-type requests, the mismatching slot of get2..5 first/middle/last, retries after every failure) + %d decode (good body, "
+                "parser over the same bytes with one fault inside one value or a Var<T> request with another T; failing value at any slot of "
+                "get2..5; retry / get_param / right type after every failure) + %d long (signature grown to 253..258 and beyond 255, then "
+                "failing pushes of every kind, reset) + %d badtree (push_old_param(s) with empty structs at any depth, mismatching variants, "
+                "arrays/maps with other declared types) + corpus/C15; thorough: x5. Compared after every operation: result, signature, "
+                "bytes, descriptor count (builder); result, value tokens, next signature, signatures left, buf_idx, sig_idx (parser). "
+                "non-trivial = at least one failing operation or a reset; distinct = distinct histories"
+                % (n_generic, n_decode, n_long, n_tree))
+    g = Gen(r, cat, mix)
+    histories = []
+    kinds = []
+    for h in load_corpus():
+        histories.append(h)
+        kinds.append("corpus")
+    ctx.count("corpus", len(histories))
+    for _ in range(n_generic):
+        histories.append(g.generic(r.choice([1, 2, 3, 5, 8, 12])))
+        kinds.append("generic")
+    for _ in range(n_decode):
+        h, label = g.decode()
+        histories.append(h)
+        kinds.append("decode")
+        ctx.count("fault:" + label)
+    for _ in range(n_long):
+        histories.append(g.long_sig())
+        kinds.append("long")
+    for _ in range(n_tree):
+        h, tk = g.badtrees()
+        histories.append(h)
+        kinds.append("badtree")
+        for x in tk:
+            ctx.count("badtree:" + x)
+    runnable = [with_cursor(strip_meta(h)) for h in histories]
+    ok, impl, err = run_histories(exe, runnable, vlib.NPROC)
+    if not ok:
+        ctx.tie_broken("c15 harness crashed", err)
+        return
+    ok, model, err = run_histories(drv, runnable, vlib.NPROC)
+    if not ok:
+        ctx.tie_broken("extracted body model crashed", err)
+        return
+    for h0, h, hi, hm, kind in zip(histories, runnable, impl, model, kinds):
+        nontrivial = any(l.split(" ")[0] not in ("ok",) and not l.startswith("cur=") for l in hi) or "BRESET" in h
+        ctx.case("\n".join(h), nontrivial=nontrivial,
+                 sample={"kind": kind, "history": [x[:100] for x in h[:8]], "impl": [x[:100] for x in hi[:8]]} if ctx.evaluations % 1201 == 0 else None)
+        ctx.count("ops", len(h))
+        ctx.count("kind:" + kind)
+        # did the aimed fault sit in the real body's bytes (coverage information only)
+        for l in h0:
+            if l.startswith("#expect "):
+                real = [parse_state(x)[1].get("buf") for x, o in zip(hi, h) if o[0] == "B"]
+                ctx.count("fault-aimed-at-real-bytes:" + str(bool(real) and real[-1] == l.split(" ")[1]))
+        bad = check_history(ctx, h, hi, hm)
+        if not bad:
+            continue
+        why, where, is_tie = bad
+        ctx.disagreements_checked += 1
+        data = {"kind": kind, "history": h[:where + 2], "impl": hi[:where + 2][-4:], "model": hm[:where + 2][-4:], "at": where}
+        if is_tie == "protocol":
+            ctx.tie_broken("correspondence: " + why, str(data)[:3000])
+        elif is_tie:
+            violated, expl = property_violated(drv, h, hi, where)
+            data["judged"] = expl
+            if violated:
+                ctx.violation(why + " - " + expl, data)
+            else:
+                ctx.tie_broken("correspondence: " + why + " - " + expl, str(data)[:3000])
+        else:
+            ctx.violation(why, data)
 
 
 def replay(ctx, body):
